@@ -20,7 +20,7 @@ EXHAUSTIVE = True
 RULE = ("random rule trees (depth<=3, <=4 children per rule, children drawn from refinement / alternative / next_rule "
         "in any written order, refinement-of-refinement, alternatives inside refinement and alternative blocks) over "
         "1-2 variables whose base rule mentions every variable, conclusions tagged by branch and built from all or only "
-        "some of the variables; a fifth of the cases are deep chains (refinement of a refinement of a refinement with "
+        "some of the variables, or absent (a branch that only suppresses); a fifth of the cases are deep chains (refinement of a refinement of a refinement with "
         "alternatives / next_rules written inside the deeper blocks) over two variables; thorough adds every tree "
         "shape with <=4 branches over a one-variable 8-element domain.  Non-trivial = at least two different branches "
         "fire for some bindings and at least one binding fires nothing; distinct = tree shape (kinds and nesting) x "
@@ -130,6 +130,14 @@ def gen(rng, tier, ctx):
             for _, ch in r["children"]:
                 mark(ch)
         mark(rule)
+    if rng.random() < 0.25:
+        # some branches (often the base, or a refinement that is refined again) carry no conclusion of their own
+        def strip(r, depth):
+            if rng.random() < (0.5 if depth == 0 or r["children"] else 0.15):
+                r["concl"] = "none"
+            for _, ch in r["children"]:
+                strip(ch, depth + 1)
+        strip(rule, 0)
     return {"world": world, "vars": vars_, "rule": rule}
 
 
@@ -322,6 +330,8 @@ def build_and_run(spec, m, objs):
     q = an(entity(v, bc(spec["rule"]["cond"])))
 
     def conclude(r):
+        if r.get("concl") == "none":
+            return          # a branch without a conclusion of its own: it only suppresses / passes through
         kw = {"tag": r["id"], "p": V[names[0]]}
         if len(names) > 1 and r.get("concl", "xy") == "xy":
             kw["q"] = V[names[1]]
@@ -385,6 +395,8 @@ def run(spec, ctx):
         C["bindings_interpreted"] += 1
         fired_sets[frozenset(ids)] += 1
         for rid in ids:
+            if concl_of.get(rid, "xy") == "none":
+                continue
             if len(names) > 1 and concl_of.get(rid, "xy") == "x":
                 exp.add((rid, idmap[id(combo[0])], None))
             else:
